@@ -62,11 +62,15 @@ func init() {
 			// the removal loop
 			bound, okFile, okIdx := false, false, false
 			eachInstr(rm, func(ins ssa.Instruction) {
-				if b, ok := ins.(*ssa.BinOp); ok && b.Op == token.LSS {
-					p := accessPath(b.Y)
-					if strings.Contains(p, "builtin len(") && strings.Contains(p, "int({DefaultMetricLogWriter}.maxFileAmount)") && strings.HasSuffix(p, "+ 1)") && strings.Contains(p, " - ") {
-						bound = true
-					}
+				isCount := func(v ssa.Value) bool {
+					p := accessPath(v)
+					return strings.Contains(p, "builtin len(") && strings.Contains(p, "int({DefaultMetricLogWriter}.maxFileAmount)") && strings.HasSuffix(p, "+ 1)") && strings.Contains(p, " - ")
+				}
+				if b, ok := ins.(*ssa.BinOp); ok && b.Op == token.LSS && isCount(b.Y) {
+					bound = true // for i := 0; i < len(files)-max+1; i++
+				}
+				if sl, ok := ins.(*ssa.Slice); ok && sl.Low == nil && sl.High != nil && isCount(sl.High) && strings.Contains(accessPath(sl.X), "listMetricFiles(") {
+					bound = true // for _, f := range files[:len(files)-max+1]
 				}
 				if ci, ok := ins.(ssa.CallInstruction); ok && isExtCall(ci, "os.Remove") {
 					p := accessPath(ci.Common().Args[0])
